@@ -662,6 +662,68 @@ func C12(c *core.Ctx) {
 		}
 		c.Floor("R12.8", "verification primitives applied to a packet's signature value", nV, 4)
 	}
+	// ---- R12.10 the two packet builders accept the same signers. "For every signer type
+	// shipped … Data and Interest variants": a refusal that depends on nothing but the
+	// signer's size estimate (EstimateSize() compared with a constant, the asserted side
+	// returning an error) sits in both of MakeData / MakeInterest or in neither — a signer
+	// that can sign Data (RSA: 256 octets) must not be refused for Interests by its size alone
+	{
+		refusals := map[string]string{}
+		for _, name := range []string{"MakeData", "MakeInterest"} {
+			fn := c.Fn("R12.10", "std/ndn/spec_2022", "Spec", name)
+			if fn == nil {
+				continue
+			}
+			core.InstrsDeep(fn, func(in ssa.Instruction) {
+				iff, ok := in.(*ssa.If)
+				if !ok {
+					return
+				}
+				_, x, y, okC := core.Cmp(iff.Cond)
+				if !okC {
+					return
+				}
+				if _, isC := core.ConstInt(y); !isC {
+					return
+				}
+				// x derives from signer.EstimateSize()
+				fromEst := false
+				var walk func(v ssa.Value, d int)
+				walk = func(v ssa.Value, d int) {
+					if d > 5 || fromEst {
+						return
+					}
+					switch z := core.StripConv(v).(type) {
+					case *ssa.Call:
+						if z.Call.IsInvoke() && z.Call.Method.Name() == "EstimateSize" {
+							fromEst = true
+						}
+					case *ssa.Phi:
+						for _, e := range z.Edges {
+							walk(e, d+1)
+						}
+					case *ssa.UnOp:
+						walk(z.X, d+1)
+					}
+				}
+				walk(x, 0)
+				if !fromEst {
+					return
+				}
+				for _, succ := range iff.Block().Succs {
+					if r, isR := succ.Instrs[len(succ.Instrs)-1].(*ssa.Return); isR && len(r.Results) == 2 && !core.IsNilConst(r.Results[1]) {
+						refusals[name] = c.Pos(iff)
+					}
+				}
+			})
+		}
+		_, d := refusals["MakeData"]
+		at, i := refusals["MakeInterest"]
+		if d && !i {
+			at = refusals["MakeData"]
+		}
+		c.Decide(d == i, "R12.10", "builders-accept-the-same-signers", at, "neither builder (or both) refuses a signer by its size estimate alone", "one of MakeData / MakeInterest refuses a signer by its size estimate alone (at "+at+") and the other does not: the shipped RSA signer (256-octet signatures with a 2048-bit key) signs Data but no Interest can be built with it, so for that signer and packet kind no packet exists that the matching validator could accept")
+	}
 	// ---- R12.9 (shared with C13 R13.13) the digest and signature ranges the parser
 	// reconstructs end where the encoder's end: an element of a known type that arrives
 	// behind the field cursor must not run the cursor past the range markers (that closes
@@ -691,6 +753,17 @@ func C12(c *core.Ctx) {
 			late := ""
 			n := 0
 			core.InstrsDeep(mk, func(in ssa.Instruction) {
+				// a number encoder writing into a wire buffer (the signature length is
+				// patched with TLNum.EncodeInto) is a write like a byte store
+				if ci, isCI := in.(ssa.CallInstruction); isCI {
+					if id, okID := core.Callee(ci.Common()); okID && id.Pkg == "std/encoding" && id.Name == "EncodeInto" && (id.Recv == "TLNum" || id.Recv == "Nat") {
+						n++
+						if core.ReachableAfterDeep(mk, digestCopy, in) {
+							late = c.Pos(in)
+						}
+					}
+					return
+				}
 				st, ok := in.(*ssa.Store)
 				if !ok {
 					return
